@@ -206,8 +206,23 @@ fn gen_intervals<B: dt::intervals::Bound>(
             }
             out
         }
-        8 => Intervals::from_min(point(r)),
-        9 => Intervals::from_max(point(r)),
+        8 => {
+            let p = point(r);
+            if p <= B::max() {
+                Intervals::from_min(p)
+            } else {
+                Intervals::from_value(p)
+            }
+        }
+        9 => {
+            let p = point(r);
+            if p >= B::min() {
+                Intervals::from_max(p)
+            } else {
+                // e.g. the empty string, which is below the library's minimal text "\u{0}"
+                Intervals::from_value(p)
+            }
+        }
         10 => Intervals::full(),
         _ => {
             if allow_big {
